@@ -464,6 +464,11 @@ def subscript(eng, v, k, s):
             if ext is not None:
                 return ext(eng, v, k, s)
         raise Unsupported(f"subscript of constant {type(v.obj).__name__}")
+    if isinstance(v, PairVal):
+        kk = smt.simp(get_i(eng.as_val(s, k).t))
+        if z3.is_int_value(kk) and kk.as_long() in (0, 1):
+            return [((v.a, v.b)[kk.as_long()], s)]
+        raise Unsupported("index into a pair")
     if isinstance(v, SeqView):
         from .builtins_model import elem_at
         k = eng.as_val(s, k)
